@@ -211,6 +211,12 @@ Proof.
   all: try (destruct c1; split; reflexivity).
 Qed.
 
+Lemma ys_nonneg sy lo hi : 0 <= sy -> 0 <= lo -> 0 <= (if (sy <? lo) || (sy >=? hi) then lo else sy).
+Proof. intros. destruct ((sy <? lo) || (sy >=? hi)); lia. Qed.
+
+Lemma next_y_nonneg ys hgt H : 0 <= ys -> 0 < hgt -> 0 <= (if ys + hgt >=? H then 0 else ys + hgt).
+Proof. intros. destruct (ys + hgt >=? H); lia. Qed.
+
 Lemma set_slice_regions_fields c M C dx dy R sy :
   let c' := set_slice (set_regions c M C dx dy R) sy in
   cM c' = M /\ cC c' = C /\ cSliceY c' = sy /\ cUseNewFB c' = cUseNewFB c /\
@@ -273,13 +279,14 @@ Proof.
         as (x1 & lo & x2 & hi & rest & Epop & Hlo & Hlh & Hhi & Hat1 & Hat2 & Hrows).
       rewrite Epop.
       set (ys := if (cSliceY c <? lo) || (cSliceY c >=? hi) then lo else cSliceY c).
-      assert (Hys : 0 <= ys) by (unfold ys; destruct ((cSliceY c <? lo) || (cSliceY c >=? hi)); lia).
-      assert (Hsl : WF (rgn_create_rect 0 ys (sW st) (ys + sSliceH st))) by (apply create_rect_wf; lia).
+      assert (Hys : 0 <= ys) by (apply ys_nonneg; assumption).
+      assert (Hsl : WF (rgn_create_rect 0 ys (sW st) (ys + sSliceH st))).
+      { apply create_rect_wf; [exact HW|]. clear - Hh. lia. }
       eexists. eexists. split; [reflexivity|]. split; [wf|]. right.
       exists lo, hi. repeat (split; [assumption|]). fold ys. split; [|reflexivity].
       intros x y. msimp. unfold in_band, rect_mem.
       destruct (rgn_mem (cM c) x y) eqn:Em; [|reflexivity].
-      destruct (iMin _ _ _ _ Ic x y Em) as [Hx _]. cbn [andb]. lia. }
+      destruct (iMin _ _ _ _ Ic x y Em) as [Hx _]. cbn [andb]. clear - Hx. lia. }
   destruct Hslice as (U0 & sy' & Esl & HU0 & Hcases).
   rewrite Esl in Es.
   destruct (rgn_and (rgn_or U0 C1) (cR c1)) as [U2 b] eqn:Eand.
@@ -309,9 +316,8 @@ Proof.
     - intros x y. unfold fb_for. rewrite Hb', E13. apply HF. }
   assert (Hsy' : 0 <= sy').
   { destruct Hcases as [(_ & _ & A8)|(lo & hi & A1 & A2 & A3 & A4 & A5 & A6 & A7)].
-    - rewrite A8. destruct (cSliceY c + sSliceH st >=? sH st); lia.
-    - cbv zeta in A7. destruct A7 as [_ A8]. rewrite A8.
-      destruct ((cSliceY c <? lo) || (cSliceY c >=? hi)); match goal with |- 0 <= (if ?b then _ else _) => destruct b end; lia. }
+    - rewrite A8. apply next_y_nonneg; assumption.
+    - cbv zeta in A7. destruct A7 as [_ A8]. rewrite A8. apply next_y_nonneg; [apply ys_nonneg; assumption|assumption]. }
   match type of Es with (if ?cond then _ else _) = _ => destruct cond eqn:Econd end.
   - (* early return: nothing in the band was requested-and-modified *)
     inversion Es; subst c' m. clear Es.
@@ -457,7 +463,8 @@ Section Sweep.
         * intros x y Hm. rewrite (Hn x y) in Hm. discriminate.
         * left. intros x y Hm. rewrite (Hn x y) in Hm. discriminate.
       + cbv zeta in A7. destruct A7 as [A7 A8].
-        destruct (cSliceY c >=? hi) eqn:Ehi.
+        assert (Ehi : (cSliceY c >=? hi) = true \/ (cSliceY c >=? hi) = false) by (destruct (cSliceY c >=? hi); auto).
+        destruct Ehi as [Ehi|Ehi].
         { (* already past everything: nothing of the old sweep is left *)
           exists 0%nat, c. split; [lia|]. split; [reflexivity|]. split; [exact P|]. split.
           - intros x y Hm. specialize (Hs _ _ Hm). specialize (A6 _ _ Hm). destruct (Hq _ _ Hm); lia.
@@ -525,3 +532,35 @@ Section Sweep.
       rewrite (slice_rounds_app st m c _ c1 E1). rewrite (slice_rounds_app st nB c1 _ c2 E2). exact E3.
   Qed.
 End Sweep.
+
+(* after those rounds the client's picture is the framebuffer *)
+Lemma P0_converged st F c :
+  P0 st F c -> no_pix (cM c) ->
+  forall x y, inS (sW st) (sH st) x y -> pic_get (cPic c) x y = F x y.
+Proof.
+  intros P Hn x y Hxy.
+  apply (iPix _ _ _ _ (p_core _ _ _ P) (p_w _ _ _ P) (p_h _ _ _ P) x y Hxy (Hn x y)). apply (p_C _ _ _ P).
+Qed.
+
+Lemma P0_of_inv st c :
+  Inv st -> In c (sClients st) -> no_pix (cC c) -> cUseNewFB c && cNewFBPending c = false ->
+  cScaled c = None -> 0 <= cSliceY c -> P0 st (fb_for st c) c.
+Proof.
+  intros (HW & HH & _ & Hcl) Hin HC Hns Hus Hsy. rewrite Forall_forall in Hcl. destruct (Hcl c Hin) as [I S].
+  assert (Hsz : cPW c = sW st /\ cPH c = sH st).
+  { destruct S as [?|[Ha Hb]]; [assumption|]. rewrite Ha, Hb in Hns. discriminate. }
+  destruct Hsz. constructor; auto.
+Qed.
+
+Theorem slices_converge_inv st c :
+  Inv st -> In c (sClients st) -> sH st <= INT_MAX -> 0 < sSliceH st ->
+  no_pix (cC c) -> cUseNewFB c && cNewFBPending c = false -> cScaled c = None -> 0 <= cSliceY c ->
+  exists c', slice_rounds st c (Z.to_nat (sH st / sSliceH st + 2)) = Some c' /\
+             no_pix (cM c') /\
+             forall x y, inS (sW st) (sH st) x y -> pic_get (cPic c') x y = fb_for st c x y.
+Proof.
+  intros HI Hin HHm Hh HC Hns Hus Hsy. pose proof HI as (HW & HH & _).
+  pose proof (P0_of_inv st c HI Hin HC Hns Hus Hsy) as P.
+  destruct (slices_converge st (fb_for st c) HW HH HHm Hh c P) as (c' & E & P' & N).
+  exists c'. split; [exact E|]. split; [exact N|]. apply P0_converged; assumption.
+Qed.
